@@ -19,6 +19,7 @@ import (
 	"runtime/debug"
 	"sort"
 	"strings"
+	"sync/atomic"
 	"testing/synctest"
 )
 
@@ -27,6 +28,7 @@ import (
 
 type Rng struct{ s [4]uint64 }
 
+//go:norace
 func splitmix(x *uint64) uint64 {
 	*x += 0x9e3779b97f4a7c15
 	z := *x
@@ -41,6 +43,7 @@ func NewRng(seed uint64) *Rng {
 	return r
 }
 
+//go:norace
 func (r *Rng) Seed(seed uint64) {
 	x := seed
 	for i := range r.s {
@@ -48,9 +51,11 @@ func (r *Rng) Seed(seed uint64) {
 	}
 }
 
+//go:norace
 func rotl(x uint64, k uint) uint64 { return (x << k) | (x >> (64 - k)) }
 
 // Uint64 is xoshiro256**.
+//go:norace
 func (r *Rng) Uint64() uint64 {
 	res := rotl(r.s[1]*5, 7) * 9
 	t := r.s[1] << 17
@@ -63,6 +68,7 @@ func (r *Rng) Uint64() uint64 {
 	return res
 }
 
+//go:norace
 func (r *Rng) Intn(n int) int {
 	if n <= 1 {
 		return 0
@@ -71,6 +77,7 @@ func (r *Rng) Intn(n int) int {
 }
 
 // Chance reports true with probability num/den.
+//go:norace
 func (r *Rng) Chance(num, den int) bool { return r.Intn(den) < num }
 
 // ---------------------------------------------------------------------------------------------
@@ -321,10 +328,15 @@ func Run(cfg Config, main func()) *Result {
 }
 
 func (s *Sim) spawn(name string, daemon bool, f func()) *Task {
+	t := s.newTask(name, daemon)
+	go taskMain(t, f)
+	return t
+}
+
+func (s *Sim) newTask(name string, daemon bool) *Task {
 	t := &Task{ID: len(s.tasks), Name: name, Daemon: daemon, resume: make(chan struct{}, 1), st: stRunnable, op: "start"}
 	t.prio = s.prng.Intn(1 << 20)
 	s.tasks = append(s.tasks, t)
-	go taskMain(t, f)
 	return t
 }
 
@@ -336,6 +348,8 @@ func taskMain(t *Task, f func()) {
 		if r := recover(); r != nil {
 			recordPanic(t, r)
 		}
+		// a finished task is something others may wait for: release point for the harness edges
+		Publish()
 		RaceDisable()
 		t.st = stExited
 		t.why = ""
@@ -346,15 +360,16 @@ func taskMain(t *Task, f func()) {
 
 //go:norace
 func recordPanic(t *Task, r interface{}) {
-	RaceDisable()
-	defer RaceEnable()
 	if sim == nil {
 		return
 	}
 	if _, ok := r.(abortRun); ok {
 		return
 	}
-	sim.res.Panics = append(sim.res.Panics, PanicRec{Task: t.Name, Value: fmt.Sprint(r), Stack: trimStack(string(debug.Stack())), Step: sim.steps})
+	rec := PanicRec{Task: t.Name, Value: fmt.Sprint(r), Stack: trimStack(string(debug.Stack())), Step: sim.steps}
+	RaceDisable()
+	defer RaceEnable()
+	sim.res.Panics = append(sim.res.Panics, rec)
 }
 
 func trimStack(st string) string {
@@ -767,10 +782,32 @@ func Yield(op string, skip int) {
 	park(t, stRunnable, nil, "")
 }
 
-// WaitUntil parks the calling task until pred (evaluated by the scheduler on a stable world) holds.
+// hsync carries the happens-before edges of the HARNESS's own hand-offs (a callback publishing a
+// connection, a task waiting for it). In a real program the user's code synchronises these; the
+// simulator's hand-off is hidden from the race detector, so the harness has to say so explicitly.
+var hsync int64
+
+// Publish is a release point of harness code (end of a callback, before signalling another task).
+func Publish() { atomic.AddInt64(&hsync, 1) }
+
+// Observe is the matching acquire point (after waiting for something another task published).
+func Observe() { atomic.LoadInt64(&hsync) }
+
+// WaitUntil parks the calling harness task until pred (evaluated by the scheduler on a stable
+// world) holds; it is an acquire point for what other harness code published.
+func WaitUntil(why string, pred func() bool) {
+	Publish()
+	waitUntil(why, pred, 2)
+	Observe()
+}
+
+// WaitUntilQuiet is WaitUntil for the shims (no harness synchronisation attached).
 //
 //go:norace
-func WaitUntil(why string, pred func() bool) {
+func WaitUntilQuiet(why string, pred func() bool) { waitUntil(why, pred, 2) }
+
+//go:norace
+func waitUntil(why string, pred func() bool, skip int) {
 	s := sim
 	if s == nil || s.cur == nil {
 		if !pred() {
@@ -779,7 +816,7 @@ func WaitUntil(why string, pred func() bool) {
 		return
 	}
 	t := s.cur
-	t.site = callerPC(1)
+	t.site = callerPC(skip)
 	t.op = "wait:" + why
 	park(t, stRunnable, pred, why)
 }
@@ -828,10 +865,14 @@ func goNamed(name string, daemon bool, f func(), skip int) *Task {
 	if name == "" {
 		name = "go@" + SiteString(pc)
 	}
+	full := fmt.Sprintf("%s#%d", name, len(s.tasks)) // (no fmt inside the RaceDisable region: its sync.Pool needs its edges)
 	RaceDisable()
-	t := s.spawn(fmt.Sprintf("%s#%d", name, len(s.tasks)), daemon, f)
+	t := s.newTask(full, daemon)
 	t.site = pc
 	RaceEnable()
+	// the go statement itself stays visible to the race detector: creating a goroutine orders
+	// everything the parent did before with everything the child does
+	go taskMain(t, f)
 	Yield("spawn", skip)
 	return t
 }
@@ -891,43 +932,53 @@ func SelectOrder(t *Task, n int) []int {
 // WaitQuiescent parks the calling (main) task until no other task can run. With advance the
 // virtual clock is first run dry (every armed timer fires); without it pending timers are left alone.
 //
-//go:norace
 func WaitQuiescent(advance bool) {
+	Publish()
+	waitQuiescent(advance, 0)
+	Observe()
+}
+
+// WaitQuiescentFor is WaitQuiescent(true) that lets at most d of virtual time pass: timers due
+// later stay armed (needed when something re-arms a timer for ever).
+func WaitQuiescentFor(dNanos int64) {
+	Publish()
+	waitQuiescent(true, dNanos)
+	Observe()
+}
+
+//go:norace
+func waitQuiescent(advance bool, dNanos int64) {
 	s := sim
 	if s == nil || s.cur == nil {
 		panic("simrt.WaitQuiescent outside a simulation")
 	}
 	t := s.cur
-	t.site = callerPC(1)
+	t.site = callerPC(2)
 	t.op = "quiesce"
 	t.qAdvance = advance
 	t.qLimit = 0
-	s.quiesceT = t
-	park(t, stQuiesce, nil, "quiescence")
-}
-
-// WaitQuiescentFor is WaitQuiescent(true) that lets at most d of virtual time pass: timers due
-// later stay armed (needed when something re-arms a timer for ever).
-//
-//go:norace
-func WaitQuiescentFor(dNanos int64) {
-	s := sim
-	if s == nil || s.cur == nil {
-		panic("simrt.WaitQuiescentFor outside a simulation")
+	if dNanos > 0 {
+		t.qLimit = s.now + dNanos
 	}
-	t := s.cur
-	t.site = callerPC(1)
-	t.op = "quiesce"
-	t.qAdvance = true
-	t.qLimit = s.now + dNanos
 	s.quiesceT = t
 	park(t, stQuiesce, nil, "quiescence")
 }
 
 // Sleep parks the calling task for d of virtual time.
 //
-//go:norace
 func Sleep(dNanos int64) {
+	Publish()
+	sleep(dNanos)
+	Observe()
+}
+
+// SleepQuiet is Sleep for the shims (time.Sleep inside netpoll): no harness synchronisation.
+//
+//go:norace
+func SleepQuiet(dNanos int64) { sleep(dNanos) }
+
+//go:norace
+func sleep(dNanos int64) {
 	s := sim
 	if s == nil || s.cur == nil {
 		panic("simrt.Sleep outside a simulation")
@@ -935,7 +986,7 @@ func Sleep(dNanos int64) {
 	done := false
 	AddTimer(dNanos, func() { done = true })
 	t := s.cur
-	t.site = callerPC(1)
+	t.site = callerPC(2)
 	t.op = "sleep"
 	park(t, stRunnable, func() bool { return done }, "sleep")
 }
@@ -1007,10 +1058,12 @@ func Logf(format string, a ...interface{}) {
 	if sim == nil {
 		return
 	}
-	RaceDisable()
-	if len(sim.res.Log) < 400 {
-		sim.res.Log = append(sim.res.Log, fmt.Sprintf("[%d] ", sim.steps)+fmt.Sprintf(format, a...))
+	if len(sim.res.Log) >= 400 {
+		return
 	}
+	line := fmt.Sprintf("[%d] ", sim.steps) + fmt.Sprintf(format, a...)
+	RaceDisable()
+	sim.res.Log = append(sim.res.Log, line)
 	RaceEnable()
 }
 
@@ -1047,9 +1100,10 @@ func FailC(property, oracle, class, fingerprint, format string, a ...interface{}
 	if sim == nil {
 		panic(fmt.Sprintf("violation outside simulation: %s %s: ", property, oracle) + fmt.Sprintf(format, a...))
 	}
+	msg := fmt.Sprintf(format, a...)
 	RaceDisable()
 	sim.res.Violations = append(sim.res.Violations, Violation{Property: property, Oracle: oracle, Class: class, Fingerprint: fingerprint,
-		Message: fmt.Sprintf(format, a...), Step: sim.steps})
+		Message: msg, Step: sim.steps})
 	RaceEnable()
 }
 
